@@ -36,10 +36,12 @@ Theorem C20_multi_field_sensitivity_refuted :
 Proof. exact sensitivity_refuted. Qed.
 Print Assumptions C20_multi_field_sensitivity_refuted.
 
-(* junk / other rounds' traffic inside the dump has no influence on the reinitialisation *)
+(* junk / other rounds' traffic inside the dump - a signing batch of another key included (since fix
+   "a signing batch of another round does not end the replay"; before it the statement had to
+   exclude signing starts) - has no influence on the reinitialisation *)
 Theorem C20_reinit_ignores_foreign_rounds :
   forall now h rd l m r,
-  String.eqb (m_event m) ev_sgn_start = false -> N.eqb (m_round m) (rd_id rd) = false ->
+  N.eqb (m_round m) (rd_id rd) = false ->
   reinit_dkg now h (Some (with_msgs rd (l ++ m :: r))) = reinit_dkg now h (Some (with_msgs rd (l ++ r))).
 Proof. exact reinit_ignores_foreign_rounds. Qed.
 Print Assumptions C20_reinit_ignores_foreign_rounds.
@@ -50,7 +52,7 @@ Print Assumptions C20_reinit_ignores_foreign_rounds.
    at, so a forged decline or error report lying on the board is applied at reinitialisation although
    it had no effect on the original ceremony.  (The harness replays the witness on real clusters.) *)
 Theorem C20_replay_does_not_verify :
-  forall now st m s, ns_skip st = true ->
-  process_message now {| h_st := st; h_tr := [] |} (with_sig m s) = process_message now {| h_st := st; h_tr := [] |} m.
+  forall put now st m s, ns_skip st = true ->
+  process_message put now {| h_st := st; h_tr := [] |} (with_sig m s) = process_message put now {| h_st := st; h_tr := [] |} m.
 Proof. exact unverified_replay. Qed.
 Print Assumptions C20_replay_does_not_verify.
